@@ -14,7 +14,8 @@ fold = REG.fold
 axiom = REG.axiom
 site = REG.site
 opaque = REG.opaque
+extend = REG.extend
 
 # names used inside @spec bodies: they are never executed by CPython at load
 # time (the source is interpreted symbolically), so they need no definition.
-__all__ = ['contract', 'invariant', 'cls', 'record', 'enum', 'spec', 'const', 'ufunc', 'ghostvar', 'fold', 'axiom', 'site', 'opaque']
+__all__ = ['contract', 'invariant', 'cls', 'record', 'enum', 'spec', 'const', 'ufunc', 'ghostvar', 'fold', 'axiom', 'site', 'opaque', 'extend']
